@@ -27,6 +27,10 @@ VARIANTS = {
     'table-alias-is-model-name': 'select * from int1.t1 as pred join mindsdb.pred as m where {W}',
     'other-table-named-like-model-alias': 'select * from int1.t1 as t join mindsdb.pred as m join int2.m as u on u.a = t.a where {W}',
     'other-table-named-like-table-alias': 'select * from int1.t1 as t join int2.t as u on u.a = t.a join mindsdb.pred as m where {W}',
+    # a BETWEEN whose upper bound is a column of another table / of the model: it mentions two relations, so it may go nowhere
+    'between-other-table-bound': 'select * from int1.t1 as t join int2.t2 as u on t.a = u.a join mindsdb.pred as m '
+                                 'where {W} and t.a between 1 and u.c',
+    'between-model-column-bound': 'select * from int1.t1 as t join mindsdb.pred as m where {W} and t.a between 1 and m.yy',
     'null-model-argument': 'select * from int1.t1 as t join mindsdb.pred as m where {W}',
     'zero-model-argument': 'select * from int1.t1 as t join mindsdb.pred as m where {W}',
     'constant-first': 'select * from int1.t1 as t join mindsdb.pred as m where {WF}',
@@ -111,6 +115,9 @@ def tree_of(node):
         if i is not None:
             return {'k': 'atom', 'id': i}
         raise ValueError('unknown condition %s' % node)
+    if k == 'BetweenOperation':
+        # the extra conjunct of the between-column-bound variants: it is no atom of W and can only stay in the outer filter
+        return {'k': 'true'}
     if k == 'UnaryOperation' and str(node.op).lower() == 'not':
         return {'k': 'not', 'a': tree_of(node.args[0])}
     raise ValueError('unknown node %s' % k)
